@@ -129,6 +129,30 @@ func sameSet(a, b []string) bool {
 	return true
 }
 
+// tuneBlockSum gives side A exactly one outbound message whose proposal line sums to the
+// residue wanted (the MID is searched; sizes are taken from the real proposal).
+func tuneBlockSum(r Rng, sc *pairScenario, want int) {
+	base := r.Message(sc.A.Mycall, "TUNE")
+	for k := 0; k < 5000; k++ {
+		mid := fmt.Sprintf("T%s%04d", r.StringFrom(alnumUpper, 3), k)
+		base.Header.Set("Mid", mid)
+		p, err := base.Proposal(fbb.Wl2kProposal)
+		if err != nil {
+			return
+		}
+		line := fmt.Sprintf("FC EM %s %d %d %d\r", p.MID(), p.Size(), p.CompressedSize(), 0)
+		sum := 0
+		for i := 0; i < len(line); i++ {
+			sum += int(line[i])
+		}
+		if sum%256 == want {
+			sc.A.Outbox = []*fbb.Message{base}
+			delete(sc.B.Policy, mid)
+			return
+		}
+	}
+}
+
 func runC01(ctx *Ctx) error {
 	r, res := ctx.Rng, ctx.Res
 	res.Rule = "cases: pairs of real Sessions (random master/slave, MOTD, batched/unbatched handlers, 0..12 valid messages each way with non-ASCII subjects, precedence markers, attachments, long encoded titles; per-MID accept/reject/defer policies) over an in-memory duplex with read segmentation 1..300 bytes or unlimited. Oracle: the statement of C01 on the handlers' logs (delivered exactly once and intact, reported sent exactly once, rejected/deferred reported and not transferred, stats, nil results, closed). Correspondence: each real side vs the model side fed with the bytes its peer actually sent (wire bytes, callbacks, stats, result). GZIP_EXPERIMENT pairs are checked by the oracle only. Non-trivial: at least one message body transferred; distinct by scenario."
@@ -141,6 +165,11 @@ func runC01(ctx *Ctx) error {
 			maxMsgs = 12
 		}
 		sc := r.Scenario(maxMsgs)
+		if i%10 == 7 {
+			// a one-proposal block whose lines sum to a chosen residue modulo 256: the block
+			// checksum is then 0, 0xff or 0x80 (seeded change C01-b miscomputed the first)
+			tuneBlockSum(r, &sc, []int{0, 1, 128}[(i/10)%3])
+		}
 		gz := i%9 == 8
 		if gz {
 			os.Setenv("GZIP_EXPERIMENT", "1")
